@@ -216,14 +216,14 @@ func init() {
 	// C14 — EnsurePathExistsOnAdd
 	registerSeq("C14", func(tier string) *seqProp {
 		opts := []r69.Options{{Neg: true, Ensure: true, EscapeHTML: true}, {Neg: false, Ensure: true, EscapeHTML: true}}
-		docs := []string{`{}`, `[]`, `{"a":{"b":{}},"m~n":[]}`, `{"a":[{"b":[]}],"a/b":{"a":1}}`, `[[],{"a":[1]}]`, `{"b":[1,[2]],"a":{"a/b":{}}}`}
+		docs := []string{`{}`, `[]`, `{"a":{"b":{}},"m~~n":[]}`, `{"a":[{"b":[]}],"a/b":{"a":1},"a~1b":{"b":2}}`, `[[],{"a":[1]}]`, `{"b":[1,[2]],"a":{"a/b":{}}}`}
 		el := 3
 		if tier == "thorough" {
 			el = 4
 		}
 		first := &AlphaCfg{EnsureLen: el, Values: []*rj.Value{patchValues[0], patchValues[5]}}
 		p := &seqProp{ID: "C14", Docs: docs, Opts: opts, Depth: 2, Alpha: []*AlphaCfg{first, {Values: v2, ReplValues: v1n}}, Judge: judgeC14,
-			Rule: "option on: every add path of 1..L tokens over {a, b, 'a/b', 'm~n', 0, 1, 2} ('-' as last token only) x 2 values on documents in which every prefix length is already present, " +
+			Rule: "option on: every add path of 1..L tokens over {a, b, 'a/b', 'm~~n', 0, 1, 2} ('-' as last token only) x 2 values on documents in which every prefix length is already present, " +
 				"followed by every further operation of Sigma(D); judged against reference ensure+add with ORDERED equality (frame: nothing off the path changes), " +
 				"lookup of the value at the path in the output, and agreement with plain add wherever plain add succeeds"}
 		if tier == "thorough" {
